@@ -74,6 +74,54 @@ CHECKS = {
             'satisfiable assumptions through the real validate(is_eval=True). No veriT binary: all steps synthetic.',
             'Trusts vf/oracle_c18_sem.py (Z3 as counter-model finder, models re-evaluated when quantifier-free or finite).',
             'DESIGN.md 2 C18'),
+    'C08': ('contract on the real infertype.type_infer (snapshot of skeleton/context before, result or exception after) judged by '
+            'an independent type checker on shadows; erasures of generated well-typed terms must be recovered exactly',
+            'Exploration: every call of type_infer during generated erasures at three annotation levels, hostile ill-typed skeletons '
+            'and re-parsing of library statements is checked for: well-typedness, same shape, kept annotations and declared types, '
+            'one type per variable, constants at instances of declared types, no internal type variable, exact recovery; any '
+            'exception other than its own error classes is a violation.',
+            'Trusts vf/shadow.py typeof / ty_match; declared types read from theory data tables.',
+            'DESIGN.md 2 C08'),
+    'C09': ('contract on the real matcher.first_order_match (module attribute wrapped: all callers in the library replay are seen) '
+            'with reference instantiate-then-beta-eta on shadows',
+            'Exploration: every successful match observed while replaying recorded library proofs (tens of thousands per quick run) '
+            'and on generated pairs (first-order, Miller, heuristic, pre-seeded instantiations, constructed instances, near-miss '
+            'targets with redirected bound variables, clashing binder names) is re-instantiated by the reference implementation '
+            'and compared with the target modulo beta-eta; caller instantiation must be unchanged and extended; first-order '
+            'patterns must match their constructed instances.',
+            'Trusts vf/shadow.py substitution / beta / eta.',
+            'DESIGN.md 2 C09'),
+    'C15': ('sys.monitoring PY_RETURN hooks on the nested functions of sat.solve_cnf (trail / learned-clause invariants, logical '
+            'termination bound) + brute-force truth tables + resolution-trace replay; Tseitin theorems through the proof checker',
+            'Exploration, exhaustive on finite sub-spaces: all CNFs over 2 variables with <= 3 clauses and 3 variables with <= 2 '
+            'clauses (quick; thorough: <= 4 clauses), sampled larger ones, random CNFs up to 12 variables with duplicate and '
+            'tautological literals, several hash seeds; every verdict compared with brute force, every model substituted, every '
+            'unsat trace replayed, trail invariants checked at every propagate/backtrack return.',
+            'Trusts the truth-table oracle (calibrated against naive enumeration at start-up) and the kernel checker for Tseitin proofs; '
+            'sat/zchaff.py needs an absent binary and is not covered.',
+            'DESIGN.md 2 C15'),
+    'C16': ('wrappers on omega.solve_matrix, OmegaHOL.solve, Simplex.check/pivot/handle_assertion, branch_and_bound and the simplex '
+            'macros; witnesses judged by exact substitution, UNSAT answers by verified witnesses (planted / box search / re-checked Z3 '
+            'model); produced proofs through the proof checker',
+            'Exploration: thousands of generated systems (<= 5 variables, <= 8 rows, zero rows, duplicates, paired equalities, '
+            'unbounded directions, dark/grey shadow cases) for the integer and rational procedures and the strict-inequality '
+            'simplex; start-up calibration of the row semantics against the repository test data.',
+            'Trusts exact Fraction arithmetic; Z3 only as a model finder whose models are re-checked.',
+            'DESIGN.md 2 C16'),
+    'C19': ('wrappers on eval of every integral.rules.Rule subclass (input, context conditions, output) judged by an independent '
+            'mpmath evaluator (quadrature / limits / sums / derivatives at 30 and 60 digits) at admissible parameter draws',
+            'Exploration: all 1308 recorded steps of the example files re-executed read-only plus generated integrands and rule '
+            'parameters; a step is violated only when before/after differ by more than 1e4 x the error estimate at two independent '
+            'draws; ~19% of calls are inconclusive (non-convergence, budget) and counted as such.',
+            'Trusts vf/oracle_c19_numeric.py and mpmath; principal-value and domain hazards are treated as inconclusive.',
+            'DESIGN.md 2 C19'),
+    'C20': ('wrappers on Com.compute_wp / Expr.__str__ / convert_hol and imp.eval_Sem / vcg; reference interpreter + own Z3 '
+            'encoding of every VC; printed conditions re-parsed by the real parser and evaluated on sampled states',
+            'Exploration: generated annotated while-programs (depth <= 4, <= 3 variables) with guided and hostile specifications; '
+            'soundness judged only when every VC is proved valid by an independent encoding, then every precondition state of the '
+            'cube is executed; meaning preservation of shown/re-parsed VCs; eval_Sem final states against the interpreter.',
+            'Trusts vf/oracle_c20_lang.py (interpreter, evaluators, Z3 unsat as "VC valid").',
+            'DESIGN.md 2 C20'),
 }
 
 NOT_YET = {}
